@@ -64,6 +64,13 @@ def build(n, chains, rings=(), detour=False, probe=None):
     for rg in rings:
         for a, b in zip(rg, list(rg[1:]) + [rg[0]]):
             assert xtuml.relate(inst[a], inst[b], 4, 'prev')
+    if detour:
+        # the caller looked at every member's neighbours and used the returned sets up: results are values, not the links
+        for x in inst:
+            for phrase in ('prev', 'next'):
+                r = xtuml.navigate_many(x).P[4, phrase]()
+                while len(r):
+                    r.pop()
     if detour and n >= 2 and not rings:
         # relate attempts on the finished arrangement: a refused one leaves no trace, an accepted one is undone at once
         linked = set((a, b) for ch in chains for a, b in zip(ch, ch[1:]))
